@@ -146,7 +146,14 @@ def _calculate_impedances(
         indices = delete(indices, limit_indices)
 
     if indices.size > 0:
-        Z[indices] = func(f[indices])
+        try:
+            Z[indices] = func(f[indices])
+        except (ZeroDivisionError, OverflowError) as err:
+            # Some parameter values (e.g., a resistance or an exponent that
+            # is exactly zero) cannot be handled by some equations.
+            raise NotANumberImpedance(
+                f"Failed to calculate the impedance due to an arithmetic error: {err}"
+            )
 
     if isinf(Z).any():
         raise InfiniteImpedance("Encountered an infinite impedance")
